@@ -58,7 +58,10 @@ func (g *c09Gen) op() string {
 	g.ctr++
 	tag := fmt.Sprintf("o%d", g.ctr)
 	var goal string
-	switch g.r.Intn(10) {
+	switch g.r.Intn(12) {
+	case 10, 11:
+		// a call with an instantiated first argument (first solution only)
+		goal = g.pick("p(1)", "p(2)", "p(3)", "p(0)", "p(10)", "q(1)", "q(2)", "q(7)", "p(1)", "p(2)")
 	case 0, 1:
 		goal = "asserta(" + g.clause() + ")"
 	case 2, 3:
@@ -117,6 +120,11 @@ func (g *c09Gen) stmt(depth int) string {
 	case 0, 1, 2:
 		return g.ops(1 + g.r.Intn(2))
 	case 3, 4, 5:
+		if g.r.Intn(4) == 0 {
+			// all solutions of a call with an instantiated argument
+			k := g.pick("1", "2", "3", "0")
+			return guard(fmt.Sprintf("(%s(%s), w(hit(%s, %s)), %s, fail ; true)", pred, k, pred, k, inner()))
+		}
 		return guard(fmt.Sprintf("(%s(%s), w(see(%s, %s)), %s, fail ; true)", pred, x, pred, x, inner()))
 	case 6, 7:
 		return guard(fmt.Sprintf("(retract(%s(%s)), w(gone(%s, %s)), %s, fail ; true)", pred, x, pred, x, inner()))
@@ -201,6 +209,7 @@ func (c *c09) Generate(cx *Ctx, chunk int) []*Item {
 		"(retract(p(X3)), w(g(X3)), assertz(p(5)), fail ; true)", "(retract(p(X4)), w(g(X4)), (retract(p(2)) -> true ; true), fail ; true)",
 		"(retract(p(X5)), w(g(X5)), asserta(p(6)), fail ; true)", "(clause(p(X6), B6), w(c(X6, B6)), retractall(p(_)), fail ; true)",
 		"(p(X7), w(s(X7)), (p(Y7), w(t(Y7)), (retract(p(Y7)) -> true ; true), fail ; true), fail ; true)",
+		"(p(1) -> w(y1) ; w(n1))", "(p(2), w(h2), fail ; true)", "(retract(p(2)) -> assertz(p(2)) ; assertz(p(1)))",
 	}
 	for _, init := range initial {
 		for _, a := range pool {
